@@ -197,6 +197,29 @@ func main() {
 			fmt.Fprintln(os.Stderr, "replay:", err)
 			os.Exit(3)
 		}
+		if rp.Case.Kind == "heap" {
+			var ops []hop
+			for _, l := range rp.Case.HeapOps {
+				var o hop
+				f := strings.Fields(l)
+				if len(f) == 0 || f[0] == "h.reset" {
+					continue
+				}
+				o.kind = strings.TrimPrefix(f[0], "h.")
+				for _, kv := range f[1:] {
+					var v int64
+					if _, err := fmt.Sscanf(kv, "key=%d", &v); err == nil {
+						o.key = int(v)
+					}
+					if _, err := fmt.Sscanf(kv, "at=%d", &v); err == nil {
+						o.at = v
+					}
+				}
+				ops = append(ops, o)
+			}
+			r.heapSeq(ops, "replay")
+			return
+		}
 		n := 1
 		if rp.Case.Kind == "random" {
 			n = 300 // the interleaving of a random history is not fixed by its seed
